@@ -251,10 +251,27 @@ def main(argv=None):
             "KNOWN-FINDING: property=%s %s%s [%s] x%d"
             % (prop, (f.get("id", "") + " ") if f.get("id") else "", f.get("what", ""), "; ".join("%s / %s" % (v["clause"], v["disc"]) for v in vs), sum(v["count"] for v in vs))
         )
+    # determinism: before a violation is reported, its replay (straight-line, without the explorer) must fail again
+    confirmed = 0
+    tried = 0
+    for v, f in new[:4]:
+        tried += 1
+        try:
+            again = mod.replay(json.loads(json.dumps(v["replay"], default=repr)))
+        except Exception as e:  # noqa
+            again = None
+            sys.stderr.write("replay of %s / %s raised %r\n" % (v["clause"], v["disc"], e))
+        if again:
+            confirmed += 1
+            v["replayed"] = "reproduced"
+        else:
+            v["replayed"] = "NOT reproduced"
     for v, f in new:
         path = write_replay(prop, v)
-        print("  signature: %s / %s  (x%d)  %s" % (v["clause"], v["disc"], v["count"], v.get("what", "")[:300]))
+        print("  signature: %s / %s  (x%d)  %s%s" % (v["clause"], v["disc"], v["count"], v.get("what", "")[:300], ("  [replay: %s]" % v["replayed"]) if "replayed" in v else ""))
         print("VIOLATION property=%s replay=%s" % (prop, os.path.relpath(path, ROOT)))
+    if tried and not confirmed:
+        print("NOTE property=%s none of the %d replays tried reproduced its violation outside the explorer (nondeterminism in the harness?)" % (prop, tried))
     summary = {k: v for k, v in cov.items() if isinstance(v, (int, float, bool))}
     print("%s %s: %s wall=%.1fs" % (prop, a.tier, json.dumps(summary), wall))
     if vac:
